@@ -4,6 +4,16 @@
 // float bodies of add are irrelevant to that claim, so add is replaced (kani::stub) by an
 // order-sensitive recorder on the integer count field; for Mean the real add is used as well.
 
+// An iterator that promises nothing about its length (size_hint() is the default (0, None), no ExactSizeIterator,
+// no DoubleEndedIterator): glue that consults size hints or iterates from the back must still ingest every item.
+struct Opaque<I>(I);
+impl<I: Iterator> Iterator for Opaque<I> {
+    type Item = I::Item;
+    fn next(&mut self) -> Option<I::Item> {
+        self.0.next()
+    }
+}
+
 fn rec(n: u64, x: f64) -> u64 {
     n.rotate_left(1) ^ x.to_bits() ^ 0x9e3779b97f4a7c15
 }
@@ -58,10 +68,14 @@ macro_rules! ingest_harness {
             }
             let bv: $T = s.iter().cloned().collect();
             let br: $T = s.iter().collect();
+            let bvo: $T = Opaque(s.iter().cloned()).collect();
+            let bro: $T = Opaque(s.iter()).collect();
             kani::cover!(l == 3);
             kani::cover!(l == 0);
             assert!($same(&a, &bv));
             assert!($same(&a, &br));
+            assert!($same(&a, &bvo));
+            assert!($same(&a, &bro));
             let base: $T = $base;
             let mut e0 = base.clone();
             for &x in s {
@@ -72,8 +86,8 @@ macro_rules! ingest_harness {
             let mut e2 = base.clone();
             e2.extend(s.iter());
             let mut e3 = base.clone();
-            e3.extend(s[..cut].iter().cloned());
-            e3.extend(s[cut..].iter());
+            e3.extend(Opaque(s[..cut].iter().cloned()));
+            e3.extend(Opaque(s[cut..].iter()));
             assert!($same(&e1, &e0));
             assert!($same(&e2, &e0));
             assert!($same(&e3, &e0));
